@@ -1,11 +1,12 @@
 /* C12: file_flush (lib/sqfs/src/io/ostream.c) - a trailing hole is realised
- * completely (every split of the zero-fill writes) before fsync; the status
- * depends only on whether some call failed.
+ * completely (whatever the split of the zero-fill writes) before fsync; the
+ * status depends only on whether some call failed. Loop-free; realize_sparse
+ * is replaced by its contract (proved in realize_sparse.c).
  *
- *  C12.flush.call_args   every write offers <= min(1024, rest of hole) bytes
+ *  C12.flush.hole_first         realize_sparse runs first, on the whole hole
+ *  C12.flush.fsync_after_hole   fsync once, only after the hole is complete
  *  C12.flush.exact       ret == 0 ==> accepted zeros + seeked == hole,
- *                        sparse_count == 0, fsync was called exactly once,
- *                        after the hole was complete
+ *                        sparse_count == 0, fsync succeeded (or EINVAL)
  *  C12.flush.zero        every accepted byte is 0, each position once
  *  C12.flush.fail        ret != 0 ==> a write/seek/alloc/fsync failed
  */
@@ -24,27 +25,10 @@ bool g_fsync_failed;
 
 static void c12_write_pre(int fd, const void *buf, size_t n)
 {
-	VERIF_ASSERT(fd == g_fd && n >= 1 && n <= 1024 && g_total < g_hole &&
-		     n <= g_hole - g_total && g_fsyncs == 0,
-		     "C12.flush.call_args");
+	VERIF_ASSERT(false, "C12.flush.no_data_write");
 }
-
-int sqfs_native_file_seek(sqfs_file_handle_t fd, sqfs_s64 offset,
-			  sqfs_u32 flags)
-{
-	int r = verif_nd_int("seek.ret");
-
-	VERIF_ASSERT(fd == g_fd && offset >= 0 && (sqfs_u64)offset == g_hole &&
-		     flags == (SQFS_FILE_SEEK_CURRENT | SQFS_FILE_SEEK_TRUNCATE) &&
-		     g_seeks == 0 && g_fsyncs == 0, "C12.flush.seek_args");
-	g_seeks++;
-	if (r != 0) {
-		g_seek_failed = true;
-		return r;
-	}
-	g_seeked += (sqfs_u64)offset;
-	return 0;
-}
+#define C12_WANT_SPARSE_CONTRACT
+#include "C12/c12_ostream_contracts.h"
 
 int fsync(int fd)
 {
